@@ -193,9 +193,12 @@ def rx_instance(pattern, rng):
                 SC.CATEGORY_NOT_SPACE: "x", SC.CATEGORY_NOT_WORD: rng.choice(["-", " ", "."]),
                 SC.CATEGORY_NOT_DIGIT: "y"}[c]
 
+    groups = {}          # group number -> the text its last iteration produced
+
     def go(items):
         out = []
-        for op, av in items:
+        items = list(items)
+        for pos, (op, av) in enumerate(items):
             if op is SC.LITERAL:
                 out.append(chr(av))
             elif op is SC.NOT_LITERAL:
@@ -208,15 +211,26 @@ def rx_instance(pattern, rng):
                     out.append(rng.choice(["k", "#", " ", "5"]))
                 else:
                     iop, iav = rng.choice(its)
-                    out.append(chr(iav) if iop is SC.LITERAL else cat(iav))
+                    out.append(chr(iav) if iop is SC.LITERAL else
+                               chr(rng.randint(iav[0], iav[1])) if iop is SC.RANGE else cat(iav))
             elif op is SC.BRANCH:
                 out.append(go(list(rng.choice(av[1]))))
             elif op is SC.SUBPATTERN:
-                out.append(go(list(av[3])))
-            elif op is SC.MAX_REPEAT:
+                txt = go(list(av[3]))
+                if av[0] is not None:
+                    groups[av[0]] = txt
+                out.append(txt)
+            elif op is SC.MAX_REPEAT or op is SC.MIN_REPEAT:
                 lo, hi, p = av
                 n = rng.randint(lo, min(int(hi), lo + 2))
                 out.append("".join(go(list(p)) for _ in range(n)))
+            elif op is SC.GROUPREF:                 # \1, (?P=name): the text of the group again (any case under re.I)
+                out.append(groups.get(av, ""))
+            elif op is SC.GROUPREF_EXISTS:          # (?(1)yes|no)
+                grp, yes, no = av
+                out.append(go(list(yes)) if grp in groups else (go(list(no)) if no is not None else ""))
+            elif op is SC.ASSERT and av[0] == 1 and pos == len(items) - 1:
+                out.append(go(list(av[1])))         # a trailing positive look-ahead: what it wants to see follows
             else:
                 pass        # zero-width or unsupported opcode: contributes nothing to the instance
         return "".join(out)
@@ -271,6 +285,26 @@ RX_ATOMS = [r"\bfoo\b", r"bar\s+baz", r"se?cret", r"a.c", r"<<.*>>", r"(cat|dog)
             r"(?:drop|delete)\s+table", r"\w+\(\)", r"\bpw\d*\b", r"n\Dm", r"end\.", r"a|b\b", r"\b\w\b", r"z*q", r"\$\{.*\}"]
 SUBS = ["secret", "PASSWORD", "Drop Table", "rm -rf", "a", "", " ", "\u20ac", "x\ty", "Zz", "tea", "ignore previous",
         "\u4e2d", "0", "__"]
+
+
+# custom regexes OUTSIDE the modelled AST (numbered / named back-references, conditional groups, lazy quantifiers,
+# scoped flags, a trailing look-ahead): handed to CPython's re by both gates; in the Coq model a HOST pattern (KHost)
+# whose matcher is the table CPython's re gives for that single pattern.  None is anchored with ^ $ or looks behind /
+# beyond its own instance, so a match survives benign surrounding text that glues no \w character to it.
+RX_HOST = [r"\b(\w+)(?:\s+\1){2,}\b", r"([a-z])\1\1", r"(?P<k>\w+)\s*=\s*(?P=k)\b", r"<(\w+)>[^<]*</\1>", r"\b(\w+)-\1\b",
+           r"(a)?b(?(1)c|d)", r"(?:(x)|y)z(?(1)1|2)", r"(\d)(\w)\2\1", r"(['`])\s*;\s*drop\b.*?\1", r"se+?cret\b",
+           r"(?i:pass)word", r"\bkey(?=\s*=)", r"(ha|ho)\1+!", r"\[(\w+)\].*\[/\1\]"]
+
+_host_cache = {}
+
+
+def is_host(pattern):
+    """a regex the translator cannot express in the model's AST"""
+    r = _host_cache.get(pattern)
+    if r is None:
+        from translators import regex_to_coq
+        r = _host_cache[pattern] = not regex_to_coq.pattern_to_coq(pattern)[1]
+    return r
 
 
 CLASS_ESC = "sSdDwW"
@@ -534,14 +568,29 @@ class C10(Check):
             "escaped backslash, escaped quotes, brackets and braces inside strings, \\uXXXX escapes - as values AND keys placed "
             "before and after the deepest branch, varied separators / ensure_ascii; a systematic family per max_depth on every run "
             "plus random members, and six over-deep recipes among the hostile inputs. "
+            "HOST PATTERNS (regexes OUTSIDE the modelled AST: numbered and named back-references, conditional groups (?(1)..|..), "
+            "lazy quantifiers, scoped flags, a trailing look-ahead, character ranges - 14 patterns, none anchored with ^ $ or "
+            "looking outside its own instance): as custom signatures of both gates entering through every door (constructor, "
+            "add_signature / add_pattern, learn_threat, import_antibodies), behind all or a subset of the built-in signatures and "
+            "next to other host patterns; per entry an input only that signature matches (instances built by walking the parse "
+            "tree incl. GROUPREF / GROUPREF_EXISTS, checked against re on the single pattern), its case variant, an embedding, the "
+            "input next to an instance of a built-in signature, a second instance and a near miss, the first input again - a "
+            "systematic family on every run (every second pattern in the quick tier, all in thorough) plus, from a separate random "
+            "stream (+ n/9 cases), free membrane / innate / colony histories and per-signature batches in which half of the custom, "
+            "learned, imported and added signatures are host patterns; in Coq such a signature is KHost (tab ...), the table re "
+            "itself gives on that one pattern for the contents of the case. "
             "non-trivial = at least one signature matched or a request was rate-limited/replay-blocked/"
             "rejected by a validator; distinct by case content")
-    LEVEL_TEXT = ("Coq theorems, for all signature sets (substring and regex over an AST with literals, sets, categories, '.', sequence, "
-                  "alternation, star/plus/optional/bounded repeat and \\b), thresholds, inputs, validator behaviours and operation "
+    LEVEL_TEXT = ("Coq theorems, for all signature sets (substring, regex over an AST with literals, sets, categories, '.', sequence, "
+                  "alternation, star/plus/optional/bounded repeat and \\b, and HOST patterns = any other regex, its matcher an "
+                  "arbitrary function of the content), thresholds, inputs, validator behaviours and operation "
                   "histories of any length, about a hand-written model of Membrane.filter/learn/forget/import/add_signature/"
                   "set_threshold/clear_audit_log and InnateImmunity.check: allowed only if no active signature at or above the threshold "
                   "matches (innate: and no validator rejects, and inflammation below ACUTE); reported level = max over exactly the "
-                  "matching active signatures; equal lower() gives equal scans; substring and \\b-free signatures survive any "
+                  "matching active signatures; every signature is judged on its own (the matched list of a ++ g :: b contains g iff g matches, "
+                  "whatever a and b are; a constructor / add_signature / add_pattern signature stays active through every history and "
+                  "decides every input it matches); equal lower() gives equal scans (host patterns: provided their own matcher is "
+                  "fold-invariant); substring and \\b-free signatures survive any "
                   "embedding, every regex survives embeddings that glue no \\w character onto a \\b-anchored edge of the pattern "
                   "(syntactic edge_free_l/edge_free_r, else pre must not end / post must not start with \\w); a scan-blocked input stays "
                   "blocked in every later state; a learned/imported signature stays in the adaptive memory, with its level, through every "
@@ -570,6 +619,12 @@ class C10(Check):
                "\\w \\s \\d are Python's on ASCII and on U+4E2D U+0663 U+0085 U+00A0 U+2003 U+20AC U+2014 U+1F600 U+D800 only; the "
                "harness asserts Python agrees on exactly this alphabet and generates nothing else; the regex theorems hold for any "
                "classification satisfying cc_ok)",
+               "host patterns (custom regexes outside the AST, e.g. with back-references): CPython's re, compiled from the single "
+               "pattern with IGNORECASE, is the reference in the monitor AND the oracle of the model (per case: the table of the "
+               "submitted contents it finds a match in; never read from the gate under test); in the theorems the matcher is an "
+               "arbitrary function, and case / embedding stability of a host pattern is a visible hypothesis (sig_fold_ok, "
+               "sig_embed_ok: its own matcher is fold-invariant / survives non-\\w-gluing context), exercised by the monitor's "
+               "case-flip and embedding checks on every blocked input",
                "sha256(content)[:16] is an arbitrary function in the theorems and the identity in run_case; the harness checks it is "
                "injective on the inputs of every case",
                "time: integer ticks of 0.5 s (exact in binary64); the rate bound assumes a monotone clock",
@@ -589,6 +644,8 @@ class C10(Check):
                "the audit trail or the statistics shows as a correspondence mismatch (and, where the property speaks, in the monitor)",
                "inputs of 50k nesting depth / 100k+ code points are run on the implementation under the monitor only, not inside Coq"]
     ASSUMPTIONS = ["contents are str", "learned/custom regex patterns are valid for re.compile (learn_threat raises re.error otherwise)",
+                   "generated custom regexes are not anchored with ^ $ \\A \\Z and do not look behind / beyond their own match: for "
+                   "such patterns 'stays blocked when embedded' is false by the meaning of the pattern itself",
                    "ThreatLevel has the four members SAFE..CRITICAL = 0..3 (checked: Gen_C10_ok)",
                    "clear_audit_log is an explicit administrative reset: the append-only claim is about every other operation",
                    "innate: a validator that returns (False, None) or (False, '') is not counted by check() (`if not valid and error`); "
@@ -610,7 +667,12 @@ class C10(Check):
         return self._shipped_cache
 
     # -- generation --------------------------------------------------------
+    _host_share = 0.0          # > 0 only while the host-pattern families are generated (their own rng stream)
+
     def _sigdesc(self, rng, sid, innate=False):
+        if self._host_share and rng.random() < self._host_share:
+            lvl = rng.choice([-1, 0, 1, 2, 3, 4, 5, 6]) if innate else rng.choice([0, 1, 2, 2, 3, 3])
+            return {"id": sid, "pattern": rng.choice(RX_HOST), "regex": True, "level": lvl}
         if rng.random() < 0.5:
             pat, rx = rng.choice(RX_ATOMS), True
         else:
@@ -1020,7 +1082,9 @@ class C10(Check):
                 "t0": T0_TICKS + rng.choice([0, 1]), "ops": []}
         shipped = self._shipped()[0]
         pats = rng.sample(RX_ATOMS, 3) + rng.sample([p for p in SUBS if p.strip()], 3)
-        isrx = {p: p in RX_ATOMS for p in pats}
+        if self._host_share:
+            pats += rng.sample(RX_HOST, 3)
+        isrx = {p: p in RX_ATOMS or p in RX_HOST for p in pats}
         for p in rng.sample(pats, 2):         # two of them also under a nearly identical name
             v = key_variant(p, isrx[p], rng, rng.choice(["any", "class", "pad"]))
             if v is not None and v not in isrx:
@@ -1057,6 +1121,113 @@ class C10(Check):
                 ops.append(["tick", rng.choice([0, 1, 60, 120, 121])])
         return case
 
+    # -- HOST patterns: custom regexes outside the modelled AST, in the company of the built-in signatures ------
+    # "no active signature (built-in, CUSTOM, learned or imported) ... matches it" quantifies over every regex a user can
+    # hand to ThreatSignature / TLRPattern, not only over the regular ones: a signature that refers back to its own
+    # groups (\1, (?P=k), (?(1)..|..)) must be judged exactly as if it were installed alone, whichever built-in and
+    # custom signatures (with groups of their own) stand before and after it.
+    HOST_MEM = ["ctor", "addsig", "learn", "import"]
+    HOST_INN = ["ctor", "addpat"]
+
+    def _host_hit(self, rng, g, shipped, tries=25):
+        """an instance of g that CPython's re, on g's pattern alone, finds a match in - preferably one that no shipped
+        signature of the gate matches (so g decides alone); embedded in benign text"""
+        best = None
+        for _ in range(tries):
+            core = self._instance(g, rng)
+            if rng.random() < 0.4:
+                core = flip_case(core, rng)
+            x = embed(core, rng)[:MAX_COQ_LEN]
+            if not spec_matches(g["pattern"], True, x):
+                continue
+            best = x
+            if not any("pattern" in s_ and spec_matches(s_["pattern"], s_["is_regex"], x) for s_ in shipped):
+                return x
+        return best
+
+    def _host_company(self, rng, gate, how, pat, others=()):
+        """g = the host pattern `pat` enters through `how`; then: an input only g matches, a case variant, an embedding,
+        the input next to an instance of ANOTHER signature, a near miss, and (membrane) the first input again"""
+        innate = gate == "inn"
+        shipped = self._shipped()[1 if innate else 0]
+        nb = len(shipped)
+        thr = rng.choice([1, 2, 3, 3, 4, 5]) if innate else rng.choice([1, 2, 2, 3])
+        g = {"id": 190, "pattern": pat, "regex": True, "level": rng.randint(thr, 6 if innate else 3)}
+        x = self._host_hit(rng, g, shipped)
+        if x is None:
+            return None
+        builtin = list(range(nb)) if rng.random() < 0.7 else sorted(rng.sample(range(nb), rng.randint(0, nb)))
+        extra = [{"id": 191 + j, "pattern": p, "regex": True, "level": rng.randint(0, thr)} for j, p in enumerate(others)]
+        op_check = "check" if innate else "filter"
+        if innate:
+            case = {"kind": "inn", "scenario": "host:" + how, "builtin": builtin, "custom": list(extra),
+                    "validators": rng.choice([[], [["char", True, True]], [["len", 0, 100000]]]), "threshold": thr,
+                    "decay": rng.choice([15, 0]), "t0": 0, "ops": []}
+        else:
+            case = {"kind": "mem", "scenario": "host:" + how, "builtin": builtin, "custom": list(extra), "threshold": thr,
+                    "rate": None, "adaptive": True, "t0": T0_TICKS, "ops": []}
+        ops = case["ops"]
+        if how == "ctor":
+            case["custom"].insert(rng.randint(0, len(case["custom"])), g)
+        else:
+            if rng.random() < 0.5:
+                ops.append([op_check, benign(rng, 2)])
+            ops.append({"addsig": ["addsig", g], "learn": ["learn", g], "import": ["import", [g]], "addpat": ["addpat", g]}[how])
+        ops.append([op_check, x])
+        ops.append([op_check, flip_case(x, rng)])
+        ops.append([op_check, embed(x, rng)[:MAX_COQ_LEN]])
+        pool = [s_ for i, s_ in enumerate(shipped) if i in builtin and "pattern" in s_]
+        if pool:
+            ops.append([op_check, (x + " " + self._instance(rng.choice(pool), rng))[:MAX_COQ_LEN]])
+        y = self._host_hit(rng, g, shipped)
+        if y is not None:
+            ops.append([op_check, y])
+            ops.append([op_check, perturb(y, rng)])
+        if not innate:
+            if rng.random() < 0.5:
+                ops.append(rng.choice([["tick", 121], ["clear"], ["thr", thr]]))
+            ops.append([op_check, x])
+        return case
+
+    def _host_family(self, rng, pats):
+        out = []
+        for j, pat in enumerate(pats):
+            for how in self.HOST_INN:
+                out.append(self._host_company(rng, "inn", how, pat,
+                                              others=[RX_HOST[(j + 3) % len(RX_HOST)]] if how == "ctor" else ()))
+            for how in self.HOST_MEM:
+                out.append(self._host_company(rng, "mem", how, pat,
+                                              others=[RX_HOST[(j + 5) % len(RX_HOST)]] if how == "addsig" else ()))
+        return [c for c in out if c is not None]
+
+    def _gen_host(self, rng, n):
+        """free histories / colonies / per-signature batches in which about half of the custom, learned, imported and
+        added signatures are host patterns, plus random members of the company family; own rng stream"""
+        out = []
+        self._host_share = 0.5
+        try:
+            for k in range(n):
+                r = rng.random()
+                if r < 0.30:
+                    out.append(self._gen_inn(rng))
+                elif r < 0.55:
+                    out.append(self._gen_mem(rng))
+                elif r < 0.65:
+                    out.append(self._gen_sys(rng))
+                elif r < 0.88:
+                    gate = "inn" if rng.random() < 0.5 else "mem"
+                    how = rng.choice(self.HOST_INN if gate == "inn" else self.HOST_MEM)
+                    c = self._host_company(rng, gate, how, rng.choice(RX_HOST),
+                                           others=rng.sample(RX_HOST, rng.choice([0, 0, 1, 2])))
+                    if c is not None:
+                        out.append(c)
+                else:
+                    g = {"id": 100, "pattern": rng.choice(RX_HOST), "regex": True, "level": 0}
+                    out.append({"kind": "sig", "sig": g, "contents": self._batch_contents(rng, g, 8)})
+        finally:
+            self._host_share = 0.0
+        return out
+
     def exhaustive_cases(self):
         """the systematic admit/tighten/replay family: every rule-changing operation x substring/regex signatures"""
         import random as _random
@@ -1083,6 +1254,12 @@ class C10(Check):
                     out.append(self._keyclash_sys(rng, how, pat, rx, mode))
             for md in (0, 1, 2, 3, 5, 10):
                 out.append(self._json_family(rng, md))
+        # host patterns (regexes outside the AST) entering through every door of both gates, among the built-in signatures
+        hrng = _random.Random(f"C10:host-family:{self.seed}")
+        for _ in range(reps):
+            k0 = self.seed % len(RX_HOST)
+            pats = RX_HOST if self.tier != "quick" else [RX_HOST[(k0 + j) % len(RX_HOST)] for j in range(0, len(RX_HOST), 2)]
+            out += self._host_family(hrng, pats)
         return [self._decorate(c) for c in out if c is not None]
 
     def _gen_mem(self, rng):
@@ -1316,6 +1493,7 @@ class C10(Check):
         # one campaign of more than 10 000 distinct blocked inputs, evaluated inside Coq as well (thorough: one per
         # way of relaxing), last so that it shares its Coq shard with few other cases; larger ones run on the
         # implementation under the monitor only (extra_checks)
+        out += self._gen_host(_random_mod.Random(f"C10:host:{self.seed}:{n}"), max(8, n // 9))
         relaxes = [self.FLOOD_RELAX[self.seed % 3]] if self.tier == "quick" else self.FLOOD_RELAX[:3]
         for relax in relaxes:
             out.append(self._flood_mem(rng, self.FLOOD_IN_COQ, relax, lean=True, pat=("zq-marker", False)))
@@ -1810,9 +1988,36 @@ class C10(Check):
         return obs, {"steps": steps}
 
     # -- model input -------------------------------------------------------
-    def _sig_coq(self, d):
+    @staticmethod
+    def _case_contents(case):
+        """every content the case submits to a gate (what a host pattern's table must cover), in order, without repeats"""
+        k = case.get("kind")
+        if k == "sig":
+            xs = list(case["contents"])
+        elif k == "mem":
+            xs = []
+            for op in case["ops"]:
+                if op[0] == "filter":
+                    xs.append(op[1])
+                elif op[0] == "burst":
+                    xs += [burst_content(op, j) for j in range(op[4])]
+        elif k == "sys":
+            xs = [op[2][1] for op in case["ops"] if op[0] == "m" and op[2][0] == "filter"]
+        elif k == "inn":
+            xs = [op[1] for op in case["ops"] if op[0] == "check"]
+        else:
+            xs = []
+        return list(dict.fromkeys(xs))
+
+    def _sig_coq(self, d, xs=()):
+        """xs: the contents of the case.  A regex outside the model's AST is a HOST pattern: its matcher is the table of
+        the contents in which CPython's re - compiled from this ONE pattern with IGNORECASE, the reference the monitor
+        uses as well; never the gate under test - finds a match."""
         from translators import regex_to_coq
-        if d["regex"]:
+        if d["regex"] and is_host(d["pattern"]):
+            hits = [x for x in xs if spec_matches(d["pattern"], True, x)]
+            kind = f"(KHost (tab {clist([cstr(x) for x in hits])}))"
+        elif d["regex"]:
             term, ok = regex_to_coq.pattern_to_coq(d["pattern"])
             kind = f"(KRx {term})"
         else:
@@ -1821,17 +2026,20 @@ class C10(Check):
 
     def coq_case(self, case):
         k = case["kind"]
+        xs = self._case_contents(case)
+        _sig = self._sig_coq
+        sig_coq = lambda d: _sig(d, xs)      # noqa
         if k == "hostile":        # not evaluated inside Coq: a placeholder whose observation is [[]]
             return "(CSig (mkSig 0 [] (KSub []) 0) [])"
         if k == "shipped":
             return f"(CShipped {cbool(case['innate'])} {cnat(case['idx'])} {clist([cstr(x) for x in case['contents']])})"
         if k == "sig":
-            return f"(CSig {self._sig_coq(case['sig'])} {clist([cstr(x) for x in case['contents']])})"
+            return f"(CSig {sig_coq(case['sig'])} {clist([cstr(x) for x in case['contents']])})"
         if k == "sys":
             def mop_coq(op):
                 o = op[0]
-                return {"filter": lambda: f"OFilter {cstr(op[1])}", "learn": lambda: f"OLearn {self._sig_coq(op[1])}",
-                        "forget": lambda: f"OForget {cstr(op[1])}", "addsig": lambda: f"OAddSig {self._sig_coq(op[1])}",
+                return {"filter": lambda: f"OFilter {cstr(op[1])}", "learn": lambda: f"OLearn {sig_coq(op[1])}",
+                        "forget": lambda: f"OForget {cstr(op[1])}", "addsig": lambda: f"OAddSig {sig_coq(op[1])}",
                         "thr": lambda: f"OSetThreshold {cz(op[1])}", "clear": lambda: "OClearAudit"}[o]()
             ops = []
             for op in case["ops"]:
@@ -1844,7 +2052,7 @@ class C10(Check):
                 else:
                     ops.append(f"SOp {cnat(op[1])} ({mop_coq(op[2])})")
             members = ["(%s, %s, %s, %s, %s)" % (clist([cnat(i) for i in m["builtin"]]),
-                                                 clist([self._sig_coq(d) for d in m["custom"]]), cz(m["threshold"]),
+                                                 clist([sig_coq(d) for d in m["custom"]]), cz(m["threshold"]),
                                                  copt(m["rate"]), cbool(m["adaptive"])) for m in case["members"]]
             return f"(CSys (mkSCase {clist(members)} {cz(case['t0'])} {clist(ops)}))"
         if k == "mem":
@@ -1858,13 +2066,13 @@ class C10(Check):
                         raise ValueError("burst of a negative start/count")
                     ops.append(f"CBurst {cstr(op[1])} {cstr(op[2])} {cz(op[3])} {cnat(op[4])}")
                 elif o == "learn":
-                    ops.append(f"COp (OLearn {self._sig_coq(op[1])})")
+                    ops.append(f"COp (OLearn {sig_coq(op[1])})")
                 elif o == "forget":
                     ops.append(f"COp (OForget {cstr(op[1])})")
                 elif o == "import":
-                    ops.append(f"COp (OImport {clist([self._sig_coq(d) for d in op[1]])})")
+                    ops.append(f"COp (OImport {clist([sig_coq(d) for d in op[1]])})")
                 elif o == "addsig":
-                    ops.append(f"COp (OAddSig {self._sig_coq(op[1])})")
+                    ops.append(f"COp (OAddSig {sig_coq(op[1])})")
                 elif o == "thr":
                     ops.append(f"COp (OSetThreshold {cz(op[1])})")
                 elif o == "tick":
@@ -1874,7 +2082,7 @@ class C10(Check):
                 elif o != "peek":         # read-only accessor: not shown to the model
                     raise ValueError(o)
             return ("(CMem (mkMCase %s %s %s %s %s %s %s))" % (
-                clist([cnat(i) for i in case["builtin"]]), clist([self._sig_coq(d) for d in case["custom"]]),
+                clist([cnat(i) for i in case["builtin"]]), clist([sig_coq(d) for d in case["custom"]]),
                 cz(case["threshold"]), copt(case["rate"]), cbool(case["adaptive"]), cz(case["t0"]), clist(ops)))
         # innate: verdicts come from the recorded run
         obs, trace = self._last_inn(case)
@@ -1904,7 +2112,7 @@ class C10(Check):
             elif o == "addval":
                 ops.append(f"RAddValidator ({vd(op[1])})")
             elif o == "addpat":
-                ops.append(f"RI (IAddPattern {self._sig_coq(op[1])}) []")
+                ops.append(f"RI (IAddPattern {sig_coq(op[1])}) []")
             elif o == "reset":
                 ops.append("RI IReset []")
             elif o == "tick":
@@ -1912,7 +2120,7 @@ class C10(Check):
             elif o != "peek":             # read-only accessor: not shown to the model
                 raise ValueError(o)
         return ("(CInn (mkICase %s %s %s %s %s %s %s))" % (
-            clist([cnat(i) for i in case["builtin"]]), clist([self._sig_coq(d) for d in case["custom"]]),
+            clist([cnat(i) for i in case["builtin"]]), clist([sig_coq(d) for d in case["custom"]]),
             clist([vd(v) for v in self._effective_validators(case["validators"])]),
             cz(case["threshold"]), cz(case["decay"]), cz(case["t0"]), clist(ops)))
 
@@ -2048,8 +2256,10 @@ class C10(Check):
                 return Violation("C10/raises", f"InnateImmunity.check raised {st['raised']} on {x[:60]!r} (len {len(x)})")
             hits = [(i, sev) for (i, p, rx, sev) in pats if spec_matches(p, rx, x)]
             if st["ids"] != sorted(i for i, _ in hits):
+                texts = {i: ("regex " if rx else "substring ") + repr(p) for (i, p, rx, _s) in pats}
                 return Violation("C10/matched-set", f"matched patterns {st['ids']} != matching patterns "
-                                                    f"{sorted(i for i, _ in hits)} for {x!r}")
+                                                    f"{sorted(i for i, _ in hits)} for {x!r} (active patterns that differ: "
+                                                    f"{[(i, texts.get(i)) for i in sorted(set(st['ids']) ^ {i for i, _ in hits})]})")
             if st["allowed"]:
                 bad = [i for (i, sev) in hits if sev >= thr]
                 if bad:
@@ -2085,15 +2295,42 @@ class C10(Check):
                 return True
         return False
 
+    @staticmethod
+    def _host_ids(case):
+        """ids of the signatures of a history whose pattern is a regex outside the model's AST"""
+        ds = []
+        for m in (case.get("members") or [case]):
+            ds += m.get("custom", [])
+        for op in case.get("ops", []):
+            o = op[2] if op[0] == "m" else op
+            if o[0] in ("learn", "addsig", "addpat"):
+                ds.append(o[1])
+            elif o[0] == "import":
+                ds += o[1]
+            elif o[0] == "sib" and o[1][0] == "addpat":
+                pass
+        return {d["id"] for d in ds if isinstance(d, dict) and d.get("regex") and is_host(d["pattern"])}
+
     def classify(self, case, obs, trace):
         k = case["kind"]
         ks = ["kind=" + k]
         if k == "hostile":
             return ks
         if k in ("shipped", "sig"):
-            ks += ["sig-match" if r else "sig-nomatch" for r in trace.get("res", [])]
+            host = k == "sig" and case["sig"]["regex"] and is_host(case["sig"]["pattern"])
+            ks += [("host-" if host else "") + ("sig-match" if r else "sig-nomatch") for r in trace.get("res", [])]
             return ks
         ks.append("silent=" + str(bool(case.get("silent", True))))
+        hids = self._host_ids(case)
+        if hids:
+            ks.append("host-pattern-installed")
+            for st in trace.get("steps", []):
+                for it in (st.get("items") or [st]):
+                    hit = [i for i in (it.get("ids") or []) if i in hids]
+                    if hit:
+                        ks.append("host-pattern-hit:" + ("alone" if len(it["ids"]) == len(hit) else "with-others"))
+            if str(case.get("scenario", "")).startswith("host:"):
+                ks.append(("innate-" if k == "inn" else "membrane-") + case["scenario"])
         if trace.get("printed"):
             ks.append("printed-to-stdout")
         if case.get("cb"):
@@ -2125,7 +2362,7 @@ class C10(Check):
             for st in trace.get("steps", []):
                 if st["op"] == "check" and "allowed" in st:
                     ks.append("json-depth:" + ("allowed" if st["allowed"] else "blocked"))
-        elif case.get("scenario") and not case["scenario"].startswith("keyclash:"):
+        elif case.get("scenario") and not case["scenario"].startswith(("keyclash:", "host:")):
             key = "filter" if k == "mem" else "check"
             fs = [st for st in trace.get("steps", []) if st["op"] == key and st.get("content") == case["ops"][0][1]
                   and "allowed" in st]
